@@ -85,7 +85,15 @@ type PodSpec struct {
 	Prio    *int32
 }
 
-func podSpec(key string) PodSpec {
+// podSpec: the shape of a pod key; shape "alt" is a different pod re-using the name (other volume, requests, cost).
+func podSpec(key, shape string) PodSpec {
+	if shape == "alt" {
+		ps := podSpec(key, "-")
+		ps.CPU += 10
+		ps.Vol = map[string]string{"va": "vb", "vb": "va", "": "va"}[ps.Vol]
+		ps.DelCost = "268435456"
+		return ps
+	}
 	switch key {
 	case "p1":
 		return PodSpec{CPU: 100, MemMi: 64, Port: 80, Vol: "va", DelCost: "134217728"}
@@ -458,8 +466,8 @@ func claimCap() corev1.ResourceList {
 		corev1.ResourceMemory: *resource.NewQuantity(8192<<20, resource.BinarySI), corev1.ResourcePods: resource.MustParse("110")}
 }
 
-func (s *sim) mkPod(key, node string) *corev1.Pod {
-	ps := podSpec(key)
+func (s *sim) mkPod(key, node, shape string) *corev1.Pod {
+	ps := podSpec(key, shape)
 	o := world.PodOpts{Name: key, Namespace: ns, Node: node, CPU: ps.CPU, MemMi: ps.MemMi, Phase: corev1.PodRunning, TGPS: -1,
 		Annotations: map[string]string{}}
 	if node == "" {
@@ -536,8 +544,11 @@ func (s *sim) env(st Step) error {
 		nc := world.NodeClaim(st.X, pool)
 		nc.Status.Capacity, nc.Status.Allocatable = claimCap(), claimCap()
 		w.EnvCreate(nc)
-		s.created[st.X] = nc.DeepCopy()
+		if st.Z == "seed" {
+			s.created[st.X] = nc.DeepCopy() // what the provisioner holds after its Create call returned
+		}
 		s.touch("NodeClaim", st.X)
+		s.touch("ClaimGC", st.X) // state.nodeclaimgc is scheduled once for every created NodeClaim
 	case "SetClaimPid", "ClaimDeleting", "ClaimTerminating":
 		nc := &v1.NodeClaim{ObjectMeta: metav1.ObjectMeta{Name: st.X}}
 		if !w.EnvMutate(nc, st.A, func() {
@@ -563,7 +574,7 @@ func (s *sim) env(st Step) error {
 		if s.getPod(st.X) != nil {
 			return miss()
 		}
-		w.EnvCreate(s.mkPod(st.X, st.Y))
+		w.EnvCreate(s.mkPod(st.X, st.Y, st.Z))
 		s.touch("Pod", st.X)
 	case "BindPod", "PodTerminal", "PodTerminating":
 		p := &corev1.Pod{ObjectMeta: metav1.ObjectMeta{Name: st.X, Namespace: ns}}
@@ -687,7 +698,7 @@ func (s *sim) step(st Step) error {
 			s.cl.UnmarkForDeletion(st.X)
 			s.marks.Delete(st.X)
 		}
-		s.tw.Emit(trace.M{"e": "Step", "a": st.A, "x": st.X, "y": st.Y, "z": st.Z, "kind": "-", "hit": hit, "objs": [][]string{}})
+		s.tw.Emit(trace.M{"e": "Step", "a": st.A, "x": st.X, "y": st.Y, "z": st.Z, "kind": "-", "kind2": "-", "hit": hit, "objs": [][]string{}})
 		return nil
 	case "Seed":
 		// the provisioner's post-create cluster.UpdateNodeClaim with the object as it was created
@@ -696,12 +707,13 @@ func (s *sim) step(st Step) error {
 			return fmt.Errorf("seed of unknown claim %s", st.X)
 		}
 		s.cl.UpdateNodeClaim(nc.DeepCopy())
-		s.touch("ClaimGC", st.X)
-		s.tw.Emit(trace.M{"e": "Step", "a": st.A, "x": st.X, "y": st.Y, "z": st.Z, "kind": "ClaimGC", "hit": true, "objs": [][]string{}})
+		delete(s.created, st.X)
+		s.tw.Emit(trace.M{"e": "Step", "a": st.A, "x": st.X, "y": st.Y, "z": st.Z, "kind": "-", "kind2": "-", "hit": true, "objs": [][]string{}})
 		return nil
 	case "Restart":
 		s.restart()
 		s.pend = map[string]bool{}
+		s.created = map[string]*v1.NodeClaim{} // in-flight seeds and the gc queue die with the process
 		for _, n := range s.u.Nodes {
 			if s.getNode(n) != nil {
 				s.touch("Node", n)
@@ -723,7 +735,7 @@ func (s *sim) step(st Step) error {
 			objs = append(objs, []string{k[:i], k[i+1:]})
 		}
 		sort.Slice(objs, func(i, j int) bool { return objs[i][0]+objs[i][1] < objs[j][0]+objs[j][1] })
-		s.tw.Emit(trace.M{"e": "Step", "a": st.A, "x": st.X, "y": st.Y, "z": st.Z, "kind": "-", "hit": true, "objs": objs})
+		s.tw.Emit(trace.M{"e": "Step", "a": st.A, "x": st.X, "y": st.Y, "z": st.Z, "kind": "-", "kind2": "-", "hit": true, "objs": objs})
 		return nil
 	}
 	if err := s.env(st); err != nil {
@@ -744,7 +756,11 @@ func (s *sim) step(st Step) error {
 	if kind == "DaemonSet" {
 		name = dsName
 	}
-	s.tw.Emit(trace.M{"e": "Step", "a": st.A, "x": name, "y": st.Y, "z": st.Z, "kind": kind, "hit": true, "objs": [][]string{}})
+	kind2 := "-"
+	if st.A == "CreateClaim" {
+		kind2 = "ClaimGC"
+	}
+	s.tw.Emit(trace.M{"e": "Step", "a": st.A, "x": name, "y": st.Y, "z": st.Z, "kind": kind, "kind2": kind2, "hit": true, "objs": [][]string{}})
 	return nil
 }
 
